@@ -296,6 +296,7 @@ def closedByFollower : List PSource → Bool → Bool
   | .default :: rest, _ => closedByFollower rest true
   | .load _ :: rest, _ => closedByFollower rest true
   | .env _ :: rest, inst => closedByFollower rest inst
+  | .helper _ :: rest, _ => closedByFollower rest true
 
 /-- the endpoint ipfs-cluster-follow declares local (cmd/ipfs-cluster-follow/commands.go) -/
 def followerClosedEndpoint : String := "Cluster.RepoGCLocal"
@@ -303,5 +304,33 @@ def followerClosedEndpoint : String := "Cluster.RepoGCLocal"
 def polRpcCfgClauses (i : PolRpcInput) (o : Obs) : List (String × Bool) :=
   [ ("follower_closing_respected",
       !(i.ep == followerClosedEndpoint && closedByFollower i.srcs false) || o == .refused) ]
+
+
+/-! ### what the handlers behind the OPEN endpoints may reach (round 8b)
+
+"A peer that is not trusted can invoke only the identity, version and join-handshake endpoints" is worth something only if
+those three handlers do not themselves alter the pinset, drive the tracker / IPFS, or call - with the serving peer's
+credentials - an endpoint the caller could not have called. `Reach` is regenerated from rpc_api.go and the methods of `*Cluster`. -/
+
+/-- everything identity / version / join-handshake legitimately touch: the IPFS daemon's identity, the host's addresses, the
+    peer set, the peerstore, the consensus membership call of the join, the PeerAdd lock -/
+def handshakeMayCall : List (String × String) :=
+  [("ipfs", "ID"), ("host", "Addrs"), ("consensus", "Peers"), ("consensus", "AddPeer"), ("peerManager", "PeerInfos"),
+   ("paMux", "Lock"), ("paMux", "Unlock")]
+
+/-- a call that alters the pinset, drives the tracker / the IPFS daemon / the allocator / metrics, or changes membership or
+    trust beyond the join -/
+def drives (c : String × String) : Bool :=
+  c.1 == "tracker" || c.1 == "allocator" || c.1 == "informers" ||
+  (c.1 == "ipfs" && c.2 != "ID") ||
+  (c.1 == "consensus" && !(["AddPeer", "Peers", "IsTrustedPeer", "Ready", "WaitForSync"].contains c.2)) ||
+  (c.1 == "monitor" && (c.2 == "LogMetric" || c.2 == "PublishMetric"))
+
+def reachClauses (r : Reach) : List (String × Bool) :=
+  [ ("open_handler_calls_harmless", r.calls.all (fun c => handshakeMayCall.contains c)),
+    ("open_handler_forwards_only_open", r.forwards.all (fun t => intentOf t == .open_)),
+    ("open_handler_followed", r.unread.isEmpty) ]
+
+def reachHolds (r : Reach) : Bool := (reachClauses r).all (·.2)
 
 end CV.C07
